@@ -41,8 +41,17 @@ func prevTick(t int) int {
 }
 
 // lcdInv: representation invariant tying (ticks, mode, ly, firstLine) together; ticks is the frame index
-// the next machine cycle will consume.
+// the next machine cycle will consume. LY is allowed to be 0 at any time (a CPU write to FF44 clears it until
+// the next machine cycle recomputes it); lcdInvStrict is what holds right after a machine cycle.
 func lcdInv(p *PPU) bool {
+	return lcdInvGen(p, true)
+}
+
+func lcdInvStrict(p *PPU) bool {
+	return lcdInvGen(p, false)
+}
+
+func lcdInvGen(p *PPU, lyMayBeCleared bool) bool {
 	if !p.enabled {
 		return p.ticks == 0 && p.ly == 0 && p.mode == 0
 	}
@@ -58,7 +67,7 @@ func lcdInv(p *PPU) bool {
 		}
 	}
 	q := prevTick(p.ticks)
-	return p.mode == refMode(q) && int(p.ly) == q/114
+	return p.mode == refMode(q) && (int(p.ly) == q/114 || (lyMayBeCleared && p.ly == 0))
 }
 
 // oamWindow: the OAM corruption window is open only while the LCD is on and in mode 2 (C17)
